@@ -45,6 +45,21 @@ pub fn real_parts(t: &Tree) -> String {
     }
 }
 
+/// the crate's own helper for reading a reported partition as leaf names must name exactly the leaves whose bits are set, in
+/// index order (it is how a caller sees which split a bit set is); returns a description of the first disagreement
+pub fn parts_view_mismatch(t: &Tree) -> Option<String> {
+    let parts = t.get_partitions().ok()?;
+    let all = sorted_leaf_names(t);
+    for p in parts.iter() {
+        let want: String = p.ones().filter_map(|i| all.get(i).cloned()).collect();
+        match t.partition_to_leaves(p) {
+            Ok(got) if got == want => {}
+            other => return Some(format!("partition_to_leaves gives {other:?} for the bit set naming {want:?}")),
+        }
+    }
+    None
+}
+
 fn res<T: std::fmt::Display>(r: Result<T, phylotree::tree::TreeError>) -> String {
     match r {
         Ok(v) => format!("ok {v}"),
